@@ -35,6 +35,9 @@ func newProcRunner(cmd *exec.Cmd) (*procRunner, error) {
 	if err != nil {
 		return nil, err
 	}
+	launchedMu.Lock()
+	launched = append(launched, cmd) // reaped at the end of the run if it is still there
+	launchedMu.Unlock()
 	return &procRunner{cmd: cmd, stdout: so, stderr: se}, nil
 }
 func (p *procRunner) Start(context.Context) error { return p.cmd.Start() }
